@@ -35,11 +35,11 @@ def main(tier, replay=None):
     if exe is None:
         return c.finish(TRUSTED, no_input_break="extraction/OCaml build of the Ledger model failed: " + err[-1500:])
 
-    n = 46 if tier == "quick" else 400
+    n = 40 if tier == "quick" else 400
     out = os.path.join(c.workdir, "impl.txt")
     args = [outs[0], "-n", str(n), "-out", out, "-j", str(V.NCPU)]
     if tier == "quick":
-        args += ["-quota", "7"]
+        args += ["-quota", "6"]
     else:
         args += ["-all"]
     if replay:
